@@ -180,6 +180,7 @@ def run(chk, repo, tier):
                                   'not a search-space transformation')
     # ---------------------------------------------------------------- T4 / T5 / T6
     run_more(chk, repo)
+    run_t8_t9(chk, repo)
 
 
 def run_more(chk, repo):
@@ -245,3 +246,62 @@ def run_more(chk, repo):
                           line=node.lineno,
                           witness='a search space with more than one combination, e.g. TRANSITS([0,2,4]): every TRANSITS '
                                   'entry creates the model of the last combination')
+
+
+def run_t8_t9(chk, repo):
+    from sa.cfg import CFG
+    T8 = chk.rule('T8', 'an attribute is copied from a compartment before that compartment is reset to a constant (not after)',
+                  floor=1)
+    T9 = chk.rule('T9', 'remove_symbol_definitions: every set that protects definitions is closed under dependencies', floor=2)
+    SETTERS = {'set_bioavailability': 'bioavailability', 'set_lag_time': 'lag_time', 'set_input': 'input'}
+    n8 = 0
+    for f in repo.all_funcs():
+        if not f.module.name.startswith('pharmpy.modeling'):
+            continue
+        resets = []
+        for n in walk_no_nested(f.node):
+            if isinstance(n, ast.Assign) and len(n.targets) == 1 and isinstance(n.targets[0], ast.Name) \
+                    and isinstance(n.value, ast.Call) and isinstance(n.value.func, ast.Attribute) \
+                    and n.value.func.attr in SETTERS and len(n.value.args) == 2 \
+                    and isinstance(n.value.args[0], ast.Name) and n.value.args[0].id == n.targets[0].id:
+                v = n.value.args[1]
+                const = isinstance(v, ast.Constant) or (isinstance(v, ast.Call) and (dotted(v.func) or '').startswith('Expr.')
+                                                        and all(isinstance(a, ast.Constant) for a in v.args))
+                if const:
+                    resets.append((n, n.targets[0].id, SETTERS[n.value.func.attr]))
+        if not resets:
+            continue
+        cfg = CFG(f.node)
+        for n, var, attr in resets:
+            n8 += 1
+            rid = next((i for i in cfg.ids(n)), None)
+            if rid is None:
+                continue
+            kills = {k.id for k in cfg.nodes.values() if k.kind == 'stmt' and isinstance(k.ast, ast.Assign) and k.id != rid
+                     and any(isinstance(t, ast.Name) and t.id == var for t in k.ast.targets)}
+            reach = set()
+            for s_ in cfg.g.successors(rid):
+                if s_ not in kills:
+                    reach |= cfg.reachable(s_, avoid=kills)
+            bad = None
+            for r in sorted(reach):
+                a = cfg.nodes[r].ast
+                if a is None or cfg.nodes[r].kind != 'stmt':
+                    continue
+                for c in ast.walk(a):
+                    if isinstance(c, ast.Call) and isinstance(c.func, ast.Attribute) and c.func.attr in SETTERS \
+                            and SETTERS[c.func.attr] == attr and len(c.args) == 2 \
+                            and isinstance(c.args[1], ast.Attribute) and isinstance(c.args[1].value, ast.Name) \
+                            and c.args[1].value.id == var and c.args[1].attr == attr:
+                        bad = (cfg.nodes[r], c)
+            chk.instance(T8, f'{f.qualname}: `{unparse(n)[:60]}`; later copy of {var}.{attr}: {bool(bad)}')
+            if bad:
+                chk.violation(T8, f.module.rel, f.qualname, f'{unparse(n)[:60]} ... {unparse(bad[1])[:70]}',
+                              f'`{var}.{attr}` is read after `{var}` was reset to a constant: the constant is copied, the '
+                              f'model\'s {attr} is lost', line=bad[0].line,
+                              witness='add_bioavailability, then set_transit_compartments(n > 0) on a model without transits: F '
+                                      'disappears from the dosing compartment, POP_BIO is left dangling')
+    if n8 == 0:
+        raise AnalysisError('T8: no reset of a compartment attribute to a constant found in pharmpy.modeling')
+    from rules.C10 import closed_protection_sets
+    closed_protection_sets(chk, T9, repo)
